@@ -49,3 +49,7 @@ def spell_mc(ctx, ordinals=False):
 def dict_mc(ctx):
     vlib.model_check_many(ctx, [("MC_Dict", "MC_Dict.cfg"), ("MC_Dict", "MC_Dict_fr.cfg"), ("MC_Dict", "MC_Dict_de.cfg"), ("MC_Dict", "MC_Dict_nl.cfg")],
                           workers_each=3, heap="3g")
+
+
+def dec_mc(ctx):
+    vlib.model_check_many(ctx, [("MC_Dec", "MC_Dec_%s.cfg" % l) for l in LANGS], workers_each=2, heap="3g")
